@@ -63,6 +63,10 @@ def run_gotest(vc, scr, spec, res, prop_filter=None):
         if c.rc == 124 or c.rc == 137:
             res.inconclusive.append({"why": "watchdog fired for %s child %d after %.0fs: %s" % (
                 part["test"], c.k, c.wall, tail(c.logfile, 400))})
+        elif has_summary and c.rc not in (0, None) and part.get("may_die"):
+            res.obs["batches_ended_by_process_death_after_checkpoint"] = res.obs.get("batches_ended_by_process_death_after_checkpoint", 0) + 1
+        elif has_summary and c.rc not in (0, None):
+            res.broken.append({"why": "%s child %d exited rc=%s after its summary: %s" % (part["test"], c.k, c.rc, tail(c.logfile, 1500))})
         elif not has_summary:
             # the child died without a summary: a process-fatal event. Attribute it.
             handler = part.get("on_fatal", spec.get("on_fatal"))
@@ -340,3 +344,140 @@ register("C11", title="credentials", pkg=".",
               "credentials. evaluations = requests judged; distinct = (target, route, credential, status)",
          floor={"quick": 300, "thorough": 1500},
          technique="exhaustive-by-construction request matrix against the real HTTP dispatchers with a state-digest oracle")
+
+
+register("C07", title="message of death is contained", pkg=".",
+         parts=[{"test": "^TestVerifC07$", "children": {"quick": 8, "thorough": 16}, "cases": {"quick": 5, "thorough": 40}}],
+         timeout={"quick": 400, "thorough": 2400}, level="fault_enumeration",
+         env={"ROBUSTIRC_TESTING_ENABLE_PANIC_COMMAND": "1"},
+         rule="a child process owns a node directory (real raftlog/irclog LevelDB stores, real FSM) and applies a seeded history whose entry at a seeded "
+              "position, sent by a registered user or an IRC operator, is the test-only PANIC command, optionally after a snapshot; the child must die. The "
+              "parent inspects the durable log with the real store (exactly the crashing entry typed message-of-death, every other entry byte-identical), then "
+              "restarts on the same directory (restore latest snapshot, replay the durable log, optionally snapshot+restore again), applies later entries and "
+              "compares state and every output batch with a twin that saw the entry as message of death from the start and with a twin that never saw it; "
+              "the duplicate-detection marker must be the crashing entry's id. evaluations = entries replayed; distinct = (role, spelling, snapshot placement, "
+              "number of later entries)",
+         floor={"quick": 300, "thorough": 5000},
+         technique="crash injection in a child process + durable-log inspection + differential replay",
+         level_note="the three-node variant (every node exits and recovers) is exercised by the real-binary scenario of C05's thorough tier")
+
+
+# ---------------------------------------------------------------------------
+# C20: race detector reports
+
+import re as _re, glob as _glob
+
+_SCOPE_DIRS = ("internal/ircserver", "internal/outputstream", "internal/raftstore", "internal/config")
+
+
+def parse_race_logs(paths):
+    """Return a list of reports: each {'stacks': [[(func, file, line)...], [...]], 'text': str}."""
+    reports = []
+    for p in paths:
+        try:
+            text = open(p, errors="replace").read()
+        except Exception:
+            continue
+        for block in text.split("WARNING: DATA RACE")[1:]:
+            block = block.split("==================")[0]
+            stacks = []
+            cur = None
+            lines = block.splitlines()
+            i = 0
+            while i < len(lines):
+                ln = lines[i]
+                if _re.match(r"^(Write|Read|Previous write|Previous read) at ", ln.strip()) or ln.strip().startswith("Goroutine "):
+                    if ln.strip().startswith("Goroutine "):
+                        cur = None
+                    else:
+                        cur = []
+                        stacks.append(cur)
+                elif cur is not None and ln.startswith("  ") and not ln.startswith("   ") and ln.strip() and i + 1 < len(lines) and lines[i + 1].startswith("      "):
+                    func = ln.strip().split("(")[0] if not ln.strip().startswith("github.com") else ln.strip()
+                    func = ln.strip()
+                    func = _re.sub(r"\(\)$", "", func)
+                    loc = lines[i + 1].strip().split(" ")[0]
+                    cur.append((func, loc))
+                    i += 1
+                i += 1
+            reports.append({"stacks": stacks[:2], "text": block[:3000]})
+    return reports
+
+
+def _inner_robust(stack):
+    for func, loc in stack:
+        if "robustirc/robustirc" in func or func.startswith("main.") or "/repo/" in loc:
+            return func, loc
+    return None
+
+
+def c20_post_run(vc, scr, spec, res, children):
+    paths = []
+    for c in children:
+        paths += _glob.glob(os.path.join(c.wd, "race*"))
+    reports = parse_race_logs(paths)
+    res.obs["race_reports_total"] = len(reports)
+    pairs = {}
+    for r in reports:
+        if len(r["stacks"]) < 2:
+            continue
+        a, b = _inner_robust(r["stacks"][0]), _inner_robust(r["stacks"][1])
+        if not a or not b:
+            res.obs["race_reports_without_robustirc_frame"] = res.obs.get("race_reports_without_robustirc_frame", 0) + 1
+            continue
+        def norm(f):
+            fn = f[0]
+            fn = _re.sub(r"^github.com/robustirc/robustirc/", "", fn)
+            fn = _re.sub(r"\(\.\.\.\)$", "", fn)
+            return fn
+        def is_harness(f):
+            return "verif_" in f[1] or "/verif/" in f[1]
+        key = "|".join(sorted([norm(a), norm(b)]))
+        info = pairs.setdefault(key, {"n": 0, "text": r["text"], "harness": False, "locs": (a[1], b[1])})
+        info["n"] += 1
+        if is_harness(a) or is_harness(b):
+            info["harness"] = True
+    in_scope = 0
+    for key, info in sorted(pairs.items()):
+        la, lb = info["locs"]
+        def scoped(loc, fn):
+            return any(d in loc for d in _SCOPE_DIRS) or "statemachine.go" in loc or "compaction.go" in loc
+        fa, fb = key.split("|")
+        scope = scoped(la, fa) or scoped(lb, fb)
+        api_local = ("internal/api" in la and "internal/api" in lb)
+        main_globals = ("robustirc.go" in la or "robustirc.go" in lb or "(*FSM).Restore" in key)
+        if info["harness"]:
+            res.broken.append({"why": "race report with a harness frame as innermost robustirc frame: %s\n%s" % (key, info["text"][:1500])})
+            continue
+        if scope or main_globals:
+            in_scope += 1
+            res.violations.append({"t": "violation", "prop": "C20", "key": "race:" + key,
+                                   "what": "data race (%d reports) between %s [%s] and %s [%s]" % (info["n"], fa, la, fb, lb),
+                                   "witness": {"report": info["text"]}})
+        elif api_local:
+            res.extra.setdefault("out_of_scope_observations", []).append("%s (%d reports; request-local api state, not IRC server / output stream / store state)" % (key, info["n"]))
+        else:
+            in_scope += 1
+            res.violations.append({"t": "violation", "prop": "C20", "key": "race:" + key,
+                                   "what": "data race (%d reports) between %s [%s] and %s [%s]" % (info["n"], fa, la, fb, lb),
+                                   "witness": {"report": info["text"]}})
+    res.obs["race_distinct_pairs"] = len(pairs)
+    missing = res.extra.get("required_overlaps_missing")
+    if missing:
+        res.broken.append({"why": "required operation pairs never overlapped: %s" % missing})
+
+
+register("C20", title="no data races", pkg=".", race=True,
+         parts=[{"test": "^TestVerifC20$", "race": True, "may_die": True, "children": {"quick": 6, "thorough": 48}, "cases": {"quick": 2, "thorough": 4}},
+                {"pkg": "./internal/outputstream", "name": "outputstream_real", "test": "^TestVerifC08Real$", "race": True,
+                 "children": {"quick": 2, "thorough": 8}, "cases": {"quick": 2, "thorough": 10}}],
+         parallel=6, post_run=c20_post_run,
+         timeout={"quick": 600, "thorough": 3000}, level="exploration",
+         rule="in-process node built with -race under a stress workload: two posters per session, superseded and cancelled long-poll readers, every status "
+              "page, /config GET and POST, /metrics, /irclog, the expiry sweep, /snapshot, session churn and (every other seed) FSM.Restore of a real snapshot "
+              "through raft.Restore while handlers run; plus real-thread stress of the output stream. The oracle is the Go race detector (halt_on_error=0, "
+              "reports counted in the log files, de-duplicated by the unordered pair of innermost robustirc frames). evaluations = operations executed; "
+              "distinct = pairs of operation types observed in flight together (overlap matrix); the check is broken if a required pair never overlapped",
+         floor={"quick": 1000, "thorough": 20000},
+         technique="Go race detector over an overlap-measuring stress harness",
+         level_text="absence of reports on the interleavings that happened; a clean run is not race freedom")
